@@ -40,6 +40,7 @@ structure Ref where
   mip : Answer                 -- `unknownUnboundedIntVar` also when the enumeration is too large
   tooLarge : Bool
   win : Option Answer          -- answer of the problem with the integer variables confined to a window
+  ray : Bool := false          -- the relaxation has an improving recession direction (`rayExists`)
 deriving Inhabited
 
 structure Slot where
@@ -86,7 +87,7 @@ def ansClass : Answer → String
   | .optimum _ => "optimized"
   | .unknownUnboundedIntVar => "unknown"
 
-def computeRef (budget : Nat) (B : Int) (P : Problem) : Ref :=
+def computeRef0 (budget : Nat) (B : Int) (P : Problem) : Ref :=
   if !P.wfB then { wf := false, lp := .unknownUnboundedIntVar, mip := .unknownUnboundedIntVar, tooLarge := false, win := none }
   else
     let lp := lpAnswer P
@@ -114,6 +115,19 @@ def computeRef (budget : Nat) (B : Int) (P : Problem) : Ref :=
           | none => none
         { wf := true, lp := lp, mip := .unknownUnboundedIntVar, tooLarge := false, win := win }
 
+/-- with a feasible point of the MIP in hand (here: found inside the window) an improving recession
+    direction of the relaxation settles the answer: unbounded (`C06.unbounded_of_point_and_ray`) -/
+def computeRef (budget : Nat) (B : Int) (P : Problem) : Ref :=
+  let r := computeRef0 budget B P
+  if r.wf && !r.mip.isKnown && r.lp == .unbounded then
+    let ray := rayExists P
+    let pointKnown := match r.win with
+      | some (.optimum _) => true
+      | some .unbounded => true
+      | _ => false
+    if ray && pointKnown then { r with ray := ray, mip := .unbounded } else { r with ray := ray }
+  else r
+
 /-- the reference of a slot, cached until the next mutator -/
 def refOf (i : Nat) (sl : Slot) : M Ref := do
   match sl.ref with
@@ -126,7 +140,7 @@ def refOf (i : Nat) (sl : Slot) : M Ref := do
 
 def refStr (r : Ref) : String :=
   let w := match r.win with | some a => ansStr a | none => "-"
-  s!"ref={ansStr r.mip} relax={ansStr r.lp} window={w}" ++ (if r.tooLarge then " large" else "")
+  s!"ref={ansStr r.mip} relax={ansStr r.lp} window={w}" ++ (if r.tooLarge then " large" else "") ++ (if r.ray then " ray" else "")
 
 def parsePt (n : Nat) (ts : List String) : Option Pt × List String :=
   match ts with
@@ -216,8 +230,23 @@ def processObs (ln : Nat) (fresh : Bool) (si : Nat) (kind : String) (rest : List
     if rest == ["timeout"] then
       skip ln "timeout"
     else
-    let r ← refOf si sl0
+    let r0 ← refOf si sl0
     let P := sl0.p
+    -- a verified feasible point reported by the library + an improving ray: the truth is `unbounded`
+    let reported : Option Pt :=
+      match kind, rest with
+      | "solve", "unbounded" :: "fp" :: pt => (parsePt P.n pt).1
+      | "solve", "optimized" :: "val" :: _ :: _ :: "pt" :: pt => (parsePt P.n pt).1
+      | "fpoint", pt => (parsePt P.n pt).1
+      | "opoint", pt => (parsePt P.n pt).1
+      | _, _ => none
+    let upgrade := r0.wf && !r0.mip.isKnown && r0.ray &&
+      (match reported with | some x => checkFeasible P x | none => false)
+    let r : Ref := if upgrade then { r0 with mip := .unbounded } else r0
+    if upgrade then
+      match ← getSlot si with
+      | some sl => setSlot si (some { sl with ref := some r })
+      | none => pure ()
     if !r.wf then bad ln s!"model ill-formed problem data (rows outside the space or strict)" else
     -- incremental ≡ fresh
     let mut freshBad : Option String := none
